@@ -63,6 +63,7 @@ def run(ctx, prefix=PREFIX):
                 all_meta.append({"source": "repository test-suite (harness.recorder)"})
     fails, _ = ctx.validate("Trace_Section", section.doc_for(all_traces))
     section.judge(ctx, all_traces, all_meta, fails, prefix)
+    ctx.require_ops("Trace_Section", ["init", "append", "insert", "delidx", "delkey", "setitem", "setvalue", "get", "probe", "roundtrip"])
     ctx.sample({"model_edge": edges[len(edges) // 2]})
     ctx.sample({"replayed_trace": all_traces[len(edges) // 3 if len(all_traces) > len(edges) // 3 else 0]})
     ctx.sample({"random_history": all_meta[-1]})
